@@ -195,10 +195,11 @@ for ne in (0, 1):
 add("so_destroy_step", ["C18"], SO_SRC, "h_sorter_destroy_step", unwind=6, timeout=600, safety="P",
     strength="B: mtbl_sorter_destroy with <= 2 buffered entries, <= 2 readers, possibly one chunk job still in flight", functions=SO_FUNCS, assumptions=SO_ASSUME, replay="c18")
 # ---------------------------------------------------------------- libmy/my_fileset.c reload (bounded)
-add("myfs_reload_step", ["C07", "C18"], ["tu/myfs_step.c"], "h_myfs_reload_step", unwind=10, timeout=900, slice=4,
-    strength="B: my_fileset_reload from an arbitrary loaded set of <= 2 of 3 one-letter tables, setfile of <= 2 distinct lines, each table present or missing; resulting set of at most ONE entry (vector growth is cut)",
-    functions=["my_fileset_reload", "setfile_updated", "fetch_entry", "cmp_fileset_entry", "path_exists", "my_fileset_get", "ubuf_add_cstr", "ubuf_rstrip", "ubuf_cstr"],
-    assumptions=["stat / fopen / getline / fclose / dirname modelled (POSIX); bsearch and qsort modelled by their contracts over the caller's comparator", "names are one letter in directory d; setfile changes are detected by inode/mtime (as the code does)"])
+for nm, nl, tier in (("myfs_reload_step", 2, "quick"), ("myfs_reload_step3", 3, "thorough")):
+    add(nm, ["C07", "C18"], ["tu/myfs_step.c"], "h_myfs_reload_step", unwind=10, timeout=1800, slice=4, tier=tier, defines=[f"VG_MYFS_LINES={nl}"],
+        strength=f"B: my_fileset_reload from an arbitrary loaded set of <= 2 of 3 one-letter tables, setfile of <= {nl} distinct lines, each table present or missing; the new set grows through the real vector code",
+        functions=["my_fileset_reload", "setfile_updated", "fetch_entry", "cmp_fileset_entry", "path_exists", "my_fileset_get", "ubuf_add_cstr", "ubuf_rstrip", "ubuf_cstr", "entry_vec_add (growth)"],
+        assumptions=["stat / fopen / getline / fclose / dirname modelled (POSIX); bsearch and qsort modelled by their contracts over the caller's comparator; realloc by its ISO C contract", "names are one letter in directory d; setfile changes are detected by inode/mtime (as the code does); duplicate setfile lines are outside the bound"])
 # ---------------------------------------------------------------- mtbl_verify sweep
 add("vf_sweep", ["C12", "C18"], ["tu/verify_step.c", "$REPO/mtbl/varint.c", "$REPO/mtbl/fixed.c"], "h_verify_sweep", unwind=12, timeout=600,
     strength="B: verify_data_blocks over a symbolic file of 1..3 data blocks (6-byte payloads), v1/v2 framing, any subset of blocks damaged; trailer counts true",
@@ -236,7 +237,7 @@ add("vec_step", ["C01", "C09"], ["tu/vector_step.c"], "h_vector_step", unwind=8,
 add("wr_add_step_k8", ["C08", "C10", "C09", "C01", "C02", "C12", "C20"], ["tu/writer_step.c", "$REPO/mtbl/varint.c"], "h_writer_add_step",
     unwind=20, defines=["VG_KMAX=8"], strength="B: one mtbl_writer_add from an arbitrary writer state (all histories); key length <= 8", timeout=3000, slice=3, tier="thorough",
     functions=WR_STEP_FUNCS, assumptions=WR_STEP_ASSUME, replay="c08")
-add("wr_add_dfcc", ["C08", "C10", "C09"], ["tu/writer_add_dfcc.c"], "h_writer_add_dfcc", mode="dfcc", enforce="mtbl_writer_add/mtbl_writer_add__spec",
+add("wr_add_dfcc", ["C08", "C10", "C09", "C01"], ["tu/writer_add_dfcc.c"], "h_writer_add_dfcc", mode="dfcc", enforce="mtbl_writer_add/mtbl_writer_add__spec",
     replace=["bytes_compare/bytes_compare__cap", "block_builder_current_size_estimate/block_builder_current_size_estimate__cap", "bytes_shortest_separator/bytes_shortest_separator__cap",
              "_mtbl_writer_flush/_mtbl_writer_flush__cap", "ubuf_reset/ubuf_reset__cap", "ubuf_append/ubuf_append__cap", "block_builder_add/block_builder_add__cap"],
     unwind=40, timeout=600, strength="U", functions=["mtbl_writer_add"], slice=1,
@@ -258,8 +259,8 @@ add("sep_dfcc", ["C09", "C02", "C01"], ["tu/sep_dfcc.c"], "h_sep_dfcc", mode="df
                  "glue (definition of the bytewise order): each of E1 (with start < limit at the call site), E2, E3 is a key k with start <= k < limit"])
 # ---------------------------------------------------------------- C20 at module level: faults anywhere during add / close
 for h in ("add", "close"):
-    add(f"wr_{h}_fault", ["C20", "C10", "C09"], ["tu/writer_step.c", "$REPO/mtbl/varint.c"], f"h_writer_{h}_fault", unwind=12, defines=["VG_WRITE_FAULTS=2"], timeout=900,
-        strength=f"B: one mtbl_writer_{'add' if h == 'add' else 'destroy'} from an arbitrary writer state with <= 2 write(2) fault events (EINTR, short write of any length, hard error) placed anywhere; key length <= 4",
+    add(f"wr_{h}_fault", ["C20", "C10", "C09"], ["tu/writer_step.c", "$REPO/mtbl/varint.c"], f"h_writer_{h}_fault", unwind=12, unwindset={"_write_all.0": 4}, defines=["VG_WRITE_FAULTS=1"], timeout=900,
+        strength=f"B: one mtbl_writer_{'add' if h == 'add' else 'destroy'} from an arbitrary writer state with one write(2) fault event (EINTR, short write of any length, hard error) placed anywhere; key length <= 4",
         functions=WR_STEP_FUNCS + (["mtbl_writer_destroy", "_mtbl_writer_finish"] if h == "close" else []), assumptions=WR_STEP_ASSUME[:3] + ["POSIX write(2): -1 with an errno, or 1..count bytes accepted"], replay="c20")
 # ---------------------------------------------------------------- libmy/heap.c on its own (heaps larger than the merger harnesses reach)
 for op, nm, hn, tier in ((0, "push", 8, "quick"), (1, "pop", 8, "quick"), (2, "replace", 8, "quick"), (3, "heapify", 6, "quick"), (3, "heapify8", 8, "thorough"), (4, "misc", 8, "quick")):
@@ -272,3 +273,17 @@ for op, nm, hn, tier in ((0, "push", 8, "quick"), (1, "pop", 8, "quick"), (2, "r
 add("wr_session", ["C10", "C01", "C09", "C08", "C18"], ["tu/writer_session.c", "$REPO/mtbl/varint.c"], "h_writer_session", unwind=12, timeout=1200, slice=2,
     strength="B: sessions mtbl_writer_init_fd (any start offset, pooled or not) + <= 3 mtbl_writer_add (symbolic keys <= 4 bytes, accepted or refused, any block size) + mtbl_writer_destroy; compression none",
     functions=["mtbl_writer_init_fd", "mtbl_writer_add", "mtbl_writer_destroy", "_mtbl_writer_finish"] + WR_STEP_FUNCS[1:], assumptions=WR_STEP_ASSUME[:4] + ["dup/lseek modelled (POSIX)"], replay="c10")
+add("bb_add_dfcc", ["C09", "C01", "C11"], ["tu/bb_add_dfcc.c"], "h_bb_add_dfcc", mode="dfcc", enforce="block_builder_add/block_builder_add__spec",
+    replace=["uint64_vec_add/uint64_vec_add__cap", "ubuf_reserve/ubuf_reserve__cap", "ubuf_advance/ubuf_advance__cap", "mtbl_varint_encode32/mtbl_varint_encode32__cap", "memcpy/memcpy__cap",
+             "ubuf_reset/ubuf_reset__cap", "ubuf_append/ubuf_append__cap"],
+    loops="loops/bb_add.json", unwind=8, timeout=900, strength="U", functions=["block_builder_add"],
+    assumptions=["vector operations (reserve / advance / reset / append / add), mtbl_varint_encode32 and memcpy replaced by capture contracts (their own checks: vec_step, c16_*, ISO C); key and value lengths <= UINT32_MAX (the header numbers are 32-bit varints)",
+                 "byte-level layout of the encoded entry is the bounded obligation of bb_add_step (real decoder)"])
+add("vf_file", ["C12", "C18"], ["tu/verify_step.c", "$REPO/mtbl/varint.c", "$REPO/mtbl/fixed.c"], "h_verify_file", unwind=12, timeout=600,
+    strength="B: verify_file over a symbolic file of 1..2 data blocks (6-byte payloads), v1/v2 framing, any subset of data blocks and/or the index block damaged, open / reader failures",
+    functions=["verify_file", "verify_data_blocks"], assumptions=["reader stub carries the reader's contract (with verify_checksums a damaged index block stops the process at open: groups c19_reader_open, rd_*); trailer true (C10)", "mmap returns the file's bytes; printf counts verdict lines"])
+add("info_print", ["C10"], ["tu/info_step.c"], "h_info_print", unwind=14, timeout=600, slice=4, strength="U",
+    functions=["print_info (src/mtbl_info.c)"], assumptions=["reader / metadata accessors stubbed with arbitrary 64-bit values (their own checks: md_roundtrip); libc number formatting (%' grouping, percentages) not modelled"])
+add("merge_tool", ["C04", "C18"], ["tu/merge_tool.c"], "h_merge_tool", unwind=6, timeout=300, repo_assert="L",
+    strength="B: src/mtbl_merge.c merge() over a merger iterator of <= 4 entries, the writer refusing at any position", functions=["merge (src/mtbl_merge.c)"], assumptions=["merger, iterator and writer are recording stubs (their own checks: mg_*, wr_*)"])
+add("merge_tool_func", ["C04"], ["tu/merge_tool.c"], "h_merge_func", unwind=6, timeout=300, strength="U", functions=["merge_func (src/mtbl_merge.c)"], assumptions=[])
